@@ -2,9 +2,8 @@
 // plans/fam_g.py): cross-cutting properties of the autodetect types with the intrinsics arm = crate::armv8.
 //   C12  conversions and clones        W queries, same abstraction as c02_arm.rs
 //   C04  21/19/17-wide batch paths     instruction model in TAGGED mode (arm_model.rs header: sound over-approximation)
-//   C16  zeroize on drop               arbitrary-state instances through the autodetect union
+//   (C16 zeroize on drop: inner module harness/aes/auto_inner_arm.rs of crate::autodetect)
 //   C17  armv8/hazmat.rs               CONCRETE instruction model vs the FIPS-197 round transformations of the oracle
-use super::generic;
 use super::ni_model;
 use super::prelude::*;
 use crate::verif_arch as va;
@@ -118,21 +117,24 @@ conv_set!(aes192_arm_from_enc_val, aes192_arm_from_enc_ref, aes192_arm_dec_from_
 conv_set!(aes256_arm_from_enc_val, aes256_arm_from_enc_ref, aes256_arm_dec_from_enc, aes256_arm_clones, crate::Aes256, crate::Aes256Enc, crate::Aes256Dec, 32);
 
 // ------------------------------------------------------------------ C04: the W-wide ARMv8 batch paths (W = 21 / 19 / 17)
-// n blocks carved out of a byte buffer at a symbolic offset 0..=15, guard bytes before and after; per-block reference =
-// the single-block call on the same instance.  Three passes over the same n blocks (reference, in-place batch, b2b
-// batch); the instruction model runs in TAGGED mode: the call of round r on block j of each pass is constrained to agree
-// with the same (r, j) call of the first pass when their arguments agree (constant cost per call instead of the
-// quadratic Ackermann log, which makes n = W + 1 = 22 blocks x 19 instructions x 3 passes feasible).
+// n blocks carved out of a byte buffer at offset `off` (symbolic 0..=15 in the small harnesses, the odd constant 7 in the
+// large ones: the code under test never inspects addresses, and vld1q_u8/vst1q_u8 have no alignment requirement), guard
+// bytes before and after; per-block reference = the single-block call on the same instance.  Three passes over the same n
+// blocks (reference, in-place batch, b2b batch); the instruction model runs in TAGGED mode: the call of round r on block j
+// of each pass is constrained to agree with the same (r, j) call of the first pass when their arguments agree (constant
+// cost per call instead of the quadratic Ackermann log, which makes n = W + 1 = 22 blocks x 19 instructions x 3 passes
+// feasible).  Checks are accumulated without early returns (keeps the path guards of the symbolic execution small).
 macro_rules! arm_batch {
-    ($name:ident, $ty:ty, $klen:expr, $w:expr, $n:expr, $dec:expr) => {
-        arm_harness!($name, $klen + 16 * $n + 1, 16 * $n + 40, |inp| {
+    ($name:ident, $ty:ty, $klen:expr, $w:expr, $n:expr, $dec:expr, $off:expr) => {
+        arm_harness!($name, $klen + 16 * $n + 1, 400, |inp| {
             ni_model::set_cpu(true);
             const N: usize = $n;
             const W: usize = $w;
             const R: usize = $klen / 4 + 6;
             let key: [u8; $klen] = take(inp, 0);
-            let off = (inp[$klen + 16 * N] & 15) as usize;
+            let off: usize = $off(inp[$klen + 16 * N]);      // direct call (a fn pointer would make `off` symbolic for the solver)
             let c = <$ty>::new(&key.into());
+            let mut good = true;
             // pass 1: reference, N single-block calls
             va::tag::begin_pass(0, W, R);
             let mut r = [[0u8; 16]; N];
@@ -158,11 +160,8 @@ macro_rules! arm_batch {
             }
             j = 0;
             while j < 16 * N + 32 {
-                if j >= off && j < off + 16 * N {
-                    vcheck!(buf[j] == r[(j - off) / 16][(j - off) % 16]);
-                } else {
-                    vcheck!(buf[j] == 0xC3);
-                }
+                let want = if j >= off && j < off + 16 * N { r[(j - off) / 16][(j - off) % 16] } else { 0xC3 };
+                good &= buf[j] == want;
                 j += 1;
             }
             // pass 3: b2b batch: separate input unchanged, output as per block
@@ -174,81 +173,46 @@ macro_rules! arm_batch {
                 j += 1;
             }
             va::tag::begin_pass(N / W, W, R);
-            let ok = if $dec { c.decrypt_blocks_b2b(&ins, &mut outs).is_ok() } else { c.encrypt_blocks_b2b(&ins, &mut outs).is_ok() };
+            good &= if $dec { c.decrypt_blocks_b2b(&ins, &mut outs).is_ok() } else { c.encrypt_blocks_b2b(&ins, &mut outs).is_ok() };
             va::tag::end();
-            vcheck!(ok);
             j = 0;
             while j < N {
-                vcheck!(ins[j].0 == take::<16>(inp, $klen + 16 * j));
-                vcheck!(outs[j].0 == r[j]);
+                let mut k = 0;
+                while k < 16 {
+                    good &= ins[j].0[k] == inp[$klen + 16 * j + k];
+                    good &= outs[j].0[k] == r[j][k];
+                    k += 1;
+                }
                 j += 1;
             }
-            Some(true)
+            Some(good)
         });
     };
 }
-//@ harness name=aes128_arm_batch22_enc prop=C04,C20 tier=quick bits=2952 stub=1 est=300 variants=aes:armv8 desc="Aes128 (ARMv8 arm, ParBlocksSize = 21) encrypt_blocks / encrypt_blocks_b2b on 22 blocks (one full 21-wide encrypt_par batch + a tail of 1) at a symbolic buffer offset 0..15 equal 22 single-block calls; guard bytes and the separate input unchanged; all keys and contents"
-arm_batch!(aes128_arm_batch22_enc, crate::Aes128, 16, 21, 22, false);
-//@ harness name=aes128_arm_batch22_dec prop=C04,C20 tier=quick bits=2952 stub=1 est=300 variants=aes:armv8 desc="Aes128 (ARMv8 arm) decrypt_blocks / decrypt_blocks_b2b on 22 blocks (21-wide decrypt_par batch + tail) equal 22 single-block calls; guards and input unchanged"
-arm_batch!(aes128_arm_batch22_dec, crate::Aes128, 16, 21, 22, true);
-//@ harness name=aes128_arm_batch3_enc prop=C04 tier=quick bits=520 stub=1 est=100 variants=aes:armv8 desc="as batch22, n = 3 (fewer than the parallel width: tail path only), encrypt"
-arm_batch!(aes128_arm_batch3_enc, crate::Aes128, 16, 21, 3, false);
-//@ harness name=aes128_arm_batch3_dec prop=C04 tier=quick bits=520 stub=1 est=100 variants=aes:armv8 desc="as batch22, n = 3, decrypt"
-arm_batch!(aes128_arm_batch3_dec, crate::Aes128, 16, 21, 3, true);
-//@ harness name=aes128_arm_batch21_enc prop=C04 tier=thorough bits=2824 stub=1 est=300 variants=aes:armv8 desc="as batch22, n = 21 (exactly the parallel width, empty tail), encrypt"
-arm_batch!(aes128_arm_batch21_enc, crate::Aes128, 16, 21, 21, false);
-//@ harness name=aes192_arm_batch20_enc prop=C04,C20 tier=quick bits=2760 stub=1 est=300 variants=aes:armv8 desc="Aes192 (ARMv8 arm, ParBlocksSize = 19): 20 blocks (19-wide batch incl. the KEYS >= 13 rounds + tail of 1) equal 20 single-block calls, encrypt"
-arm_batch!(aes192_arm_batch20_enc, crate::Aes192, 24, 19, 20, false);
-//@ harness name=aes192_arm_batch20_dec prop=C04,C20 tier=quick bits=2760 stub=1 est=300 variants=aes:armv8 desc="Aes192 (ARMv8 arm): 20 blocks, decrypt"
-arm_batch!(aes192_arm_batch20_dec, crate::Aes192, 24, 19, 20, true);
-//@ harness name=aes256_arm_batch18_enc prop=C04,C20 tier=quick bits=2568 stub=1 est=300 variants=aes:armv8 desc="Aes256 (ARMv8 arm, ParBlocksSize = 17): 18 blocks (17-wide batch incl. the KEYS == 15 rounds + tail of 1) equal 18 single-block calls, encrypt"
-arm_batch!(aes256_arm_batch18_enc, crate::Aes256, 32, 17, 18, false);
-//@ harness name=aes256_arm_batch18_dec prop=C04,C20 tier=quick bits=2568 stub=1 est=300 variants=aes:armv8 desc="Aes256 (ARMv8 arm): 18 blocks, decrypt"
-arm_batch!(aes256_arm_batch18_dec, crate::Aes256, 32, 17, 18, true);
-
-// ------------------------------------------------------------------ C16: zeroize on drop through the autodetect union
-// Instances are built in place from arbitrary bytes.  Which union arm is live is decided by the process-wide detection
-// result, so each harness first constructs (and forgets) one real instance to run detection with the chosen CPUID answer.
-macro_rules! arm_zeroize {
-    ($name:ident, $ty:ty, $arm_ty:ty, $klen:expr) => {
-        arm_harness!($name, core::mem::size_of::<$ty>() + 1, 5000, |inp| {
-            const S: usize = core::mem::size_of::<$ty>();
-            let arm = inp[S] & 1 == 1;
-            ni_model::set_cpu(arm);
-            core::mem::forget(<$ty>::new(&[0u8; $klen].into()));
-            let mut a = core::mem::MaybeUninit::<$ty>::uninit();
-            generic::fill(&mut a, &inp[..S]);
-            unsafe { core::ptr::drop_in_place(a.as_mut_ptr()) };
-            // live bytes: the whole union when the software arm is live, the armv8 struct when that arm is live
-            // (the rest of the union is never written by any constructor of that arm)
-            let live = if arm { core::mem::size_of::<$arm_ty>() } else { S };
-            let mut i = 0;
-            while i < live {
-                vcheck!(generic::peek(&a, i) == 0);
-                i += 1;
-            }
-            Some(true)
-        });
-    };
+fn off_sym(b: u8) -> usize {
+    (b & 15) as usize
 }
-//@ harness name=aes128_arm_zeroize prop=C16 tier=quick bits=5640 stub=1 est=200 variants=aes:armv8+zeroize desc="drop of an arbitrary-state autodetect Aes128 (aarch64 build) zeroes every byte of the live union arm -- armv8::Aes128 (zeroize_flat_type over both [uint8x16_t; 11] key arrays) or the fixsliced software arm -- whichever detection selected (CPU feature answer symbolic)"
-arm_zeroize!(aes128_arm_zeroize, crate::Aes128, crate::armv8::Aes128, 16);
-//@ harness name=aes128enc_arm_zeroize prop=C16 tier=quick bits=5640 stub=1 est=200 variants=aes:armv8+zeroize desc="drop of an arbitrary-state autodetect Aes128Enc (aarch64 build) zeroes the live arm"
-arm_zeroize!(aes128enc_arm_zeroize, crate::Aes128Enc, crate::armv8::Aes128Enc, 16);
-//@ harness name=aes128dec_arm_zeroize prop=C16 tier=quick bits=5640 stub=1 est=200 variants=aes:armv8+zeroize desc="drop of an arbitrary-state autodetect Aes128Dec (aarch64 build) zeroes the live arm"
-arm_zeroize!(aes128dec_arm_zeroize, crate::Aes128Dec, crate::armv8::Aes128Dec, 16);
-//@ harness name=aes192_arm_zeroize prop=C16 tier=quick bits=6664 stub=1 est=200 variants=aes:armv8+zeroize desc="drop of an arbitrary-state autodetect Aes192 (aarch64 build) zeroes the live arm"
-arm_zeroize!(aes192_arm_zeroize, crate::Aes192, crate::armv8::Aes192, 24);
-//@ harness name=aes192enc_arm_zeroize prop=C16 tier=quick bits=6664 stub=1 est=200 variants=aes:armv8+zeroize desc="drop of an arbitrary-state autodetect Aes192Enc (aarch64 build) zeroes the live arm"
-arm_zeroize!(aes192enc_arm_zeroize, crate::Aes192Enc, crate::armv8::Aes192Enc, 24);
-//@ harness name=aes192dec_arm_zeroize prop=C16 tier=quick bits=6664 stub=1 est=200 variants=aes:armv8+zeroize desc="drop of an arbitrary-state autodetect Aes192Dec (aarch64 build) zeroes the live arm"
-arm_zeroize!(aes192dec_arm_zeroize, crate::Aes192Dec, crate::armv8::Aes192Dec, 24);
-//@ harness name=aes256_arm_zeroize prop=C16 tier=quick bits=7688 stub=1 est=200 variants=aes:armv8+zeroize desc="drop of an arbitrary-state autodetect Aes256 (aarch64 build) zeroes the live arm"
-arm_zeroize!(aes256_arm_zeroize, crate::Aes256, crate::armv8::Aes256, 32);
-//@ harness name=aes256enc_arm_zeroize prop=C16 tier=quick bits=7688 stub=1 est=200 variants=aes:armv8+zeroize desc="drop of an arbitrary-state autodetect Aes256Enc (aarch64 build) zeroes the live arm"
-arm_zeroize!(aes256enc_arm_zeroize, crate::Aes256Enc, crate::armv8::Aes256Enc, 32);
-//@ harness name=aes256dec_arm_zeroize prop=C16 tier=quick bits=7688 stub=1 est=200 variants=aes:armv8+zeroize desc="drop of an arbitrary-state autodetect Aes256Dec (aarch64 build) zeroes the live arm"
-arm_zeroize!(aes256dec_arm_zeroize, crate::Aes256Dec, crate::armv8::Aes256Dec, 32);
+fn off_7(_b: u8) -> usize {
+    7
+}
+//@ harness name=aes128_arm_batch22_enc prop=C04,C20 tier=thorough bits=2944 stub=1 est=900 variants=aes:armv8 desc="Aes128 (ARMv8 arm, ParBlocksSize = 21) encrypt_blocks / encrypt_blocks_b2b on 22 blocks (one full 21-wide encrypt_par batch + a tail of 1) at buffer offset 7 equal 22 single-block calls; guard bytes and the separate input unchanged; all keys and contents"
+arm_batch!(aes128_arm_batch22_enc, crate::Aes128, 16, 21, 22, false, off_7);
+//@ harness name=aes128_arm_batch22_dec prop=C04,C20 tier=thorough bits=2944 stub=1 est=900 variants=aes:armv8 desc="Aes128 (ARMv8 arm) decrypt_blocks / decrypt_blocks_b2b on 22 blocks (21-wide decrypt_par batch + tail) equal 22 single-block calls; guards and input unchanged"
+arm_batch!(aes128_arm_batch22_dec, crate::Aes128, 16, 21, 22, true, off_7);
+//@ harness name=aes128_arm_batch3_enc prop=C04,C20 tier=quick bits=520 stub=1 est=220 variants=aes:armv8 desc="Aes128 (ARMv8 arm): 3 blocks (fewer than the parallel width: tail path only) at a symbolic buffer offset 0..15: encrypt_blocks / encrypt_blocks_b2b equal three single-block calls; guards and the separate input unchanged; all keys and contents"
+arm_batch!(aes128_arm_batch3_enc, crate::Aes128, 16, 21, 3, false, off_sym);
+//@ harness name=aes128_arm_batch3_dec prop=C04,C20 tier=quick bits=520 stub=1 est=220 variants=aes:armv8 desc="as aes128_arm_batch3_enc, decrypt"
+arm_batch!(aes128_arm_batch3_dec, crate::Aes128, 16, 21, 3, true, off_sym);
+//@ harness name=aes128_arm_batch21_enc prop=C04 tier=thorough bits=2816 stub=1 est=900 variants=aes:armv8 desc="as batch22, n = 21 (exactly the parallel width, empty tail), encrypt"
+arm_batch!(aes128_arm_batch21_enc, crate::Aes128, 16, 21, 21, false, off_7);
+//@ harness name=aes192_arm_batch20_enc prop=C04,C20 tier=thorough bits=2752 stub=1 est=900 variants=aes:armv8 desc="Aes192 (ARMv8 arm, ParBlocksSize = 19): 20 blocks (19-wide batch incl. the KEYS >= 13 rounds + tail of 1) at buffer offset 7 equal 20 single-block calls, encrypt"
+arm_batch!(aes192_arm_batch20_enc, crate::Aes192, 24, 19, 20, false, off_7);
+//@ harness name=aes192_arm_batch20_dec prop=C04,C20 tier=thorough bits=2752 stub=1 est=900 variants=aes:armv8 desc="Aes192 (ARMv8 arm): 20 blocks, decrypt"
+arm_batch!(aes192_arm_batch20_dec, crate::Aes192, 24, 19, 20, true, off_7);
+//@ harness name=aes256_arm_batch18_enc prop=C04,C20 tier=thorough bits=2560 stub=1 est=900 variants=aes:armv8 desc="Aes256 (ARMv8 arm, ParBlocksSize = 17): 18 blocks (17-wide batch incl. the KEYS == 15 rounds + tail of 1) at buffer offset 7 equal 18 single-block calls, encrypt"
+arm_batch!(aes256_arm_batch18_enc, crate::Aes256, 32, 17, 18, false, off_7);
+//@ harness name=aes256_arm_batch18_dec prop=C04,C20 tier=thorough bits=2560 stub=1 est=900 variants=aes:armv8 desc="Aes256 (ARMv8 arm): 18 blocks, decrypt"
+arm_batch!(aes256_arm_batch18_dec, crate::Aes256, 32, 17, 18, true, off_7);
 
 // ------------------------------------------------------------------ C17: aes::hazmat on the aarch64 build
 // CONCRETE instruction model (the round functions themselves are the subject, nothing is abstracted).  The CPU feature
